@@ -64,7 +64,7 @@ func runC03(c *Ctx) {
 					fmt.Sprintf("parse(w)=%d consumed, parse(w++x): ok=%v consumed=%d", len(consumed), res2.OK, len(in2)-len(res2.Rem)))
 			}
 			// (3) no proper prefix of the consumed encoding parses
-			if len(res.Rem) == 0 || true {
+			if !(kind == "systematic" && c.Tier == "quick") { // the systematic stream is large: its prefixes are cut in the thorough tier
 				w := consumed
 				cuts := []int{}
 				if len(w) <= 64 || c.Tier == "thorough" {
